@@ -31,13 +31,13 @@ RULE = ("programs = pairs of executions of the same seeded scheduler on the same
         "bayesopt/hypertune searchers two fresh processes. A pair disagrees iff the traces (suggested configurations bit-exact, "
         "decisions) differ. distinct by sha256 of the spec; non-trivial iff the trace contains >= 10 suggestions")
 MODEL_FREE = ["fifo-random", "fifo-grid", "fifo-rea", "hb-stopping", "hb-promotion", "hb-pasha", "hb-cost_promotion",
-              "hb-rush_stopping", "hb-rush_promotion", "sync-hb", "dehb", "pbt", "median"]
+              "hb-rush_stopping", "hb-rush_promotion", "sync-hb", "dehb", "pbt", "median", "hb-dyhpo"]
 GP = ["fifo-bayesopt", "hb-bayesopt", "hb-hypertune"]
 HERE = os.path.dirname(os.path.dirname(os.path.abspath(__file__)))  # harness/
 
 
 def gen_cases(rng, tier):
-    n = 39 if tier == "quick" else 400
+    n = 42 if tier == "quick" else 420
     for i in range(n):
         name = MODEL_FREE[i % len(MODEL_FREE)]
         yield {"kind": "inproc", "name": name, "sched_seed": rng.randrange(10 ** 6), "seed": rng.randrange(10 ** 9),
@@ -116,7 +116,9 @@ def run_impl(spec):
             a = g.drive(g.make_scheduler(name, "min", spec["sched_seed"], spec["cs_kind"], spec["max_t"], spec["extra"]), spec)
             # twin under ambient perturbation, interleaved with an independent instance of the same class
             prng = random.Random(spec["perturb_seed"])
-            other = g.make_scheduler(name, "min", spec["sched_seed"] + 1, spec["cs_kind"], spec["max_t"],
+            # the independent instance: same class, other seed; for grid search also other domains under the same names
+            other = g.make_scheduler(name, "min", spec["sched_seed"] + 1,
+                                     "finite2" if (name == "fifo-grid" and spec["cs_kind"] == "finite") else spec["cs_kind"], spec["max_t"],
                                      dict(spec["extra"], restrict=rc0) if rc0 is not None else spec["extra"])
             ospec = dict(spec, seed=spec["seed"] + 7, max_events=6)
             try:
